@@ -347,3 +347,18 @@ def unsorted_set_iteration_order(d):
                 for x in o: walk(x)
     walk(o)
     return found[0]
+
+def state_before_items(d):
+    """an object whose reduce tuple has a truthy state AND list/dict items and whose item insertion depends on the state: YAML
+    applies the state before the items, pickle after (construct_python_object_apply, constructor.py)."""
+    return d.get('special') == 'limitlist' and d.get('kind') == 'rebuild_differs'
+def falsy_state_skipped(d):
+    """__getstate__ returns a falsy non-None, non-dict state (0, '', ()): pickle calls __setstate__ with it, YAML tests `if state:` and never does."""
+    return d.get('special') == 'falsy' and d.get('kind') == 'rebuild_differs'
+
+def libyaml_bang_collection_implicit(d):
+    """LibYAML parser only: a collection, or an EMPTY scalar, tagged with the non-specific tag '!' gets implicit False in its
+    event (the Python parser sets implicit = tag is None or tag == '!'); nodes and objects are the same."""
+    w = d.get('what') or ''
+    if not (d.get('kind') == 'backends_differ_events' and d.get('py') == 'ok' and d.get('c') == 'ok'): return False
+    return ("'!', True, " in w and "'!', False, " in w) or ("'!', (True, False), ''" in w and "'!', (False, False), ''" in w)
